@@ -106,6 +106,17 @@ fn main() {
         Who { label: "alice", uid: 1001, is_root: false, user: "alice", pid: w.spawn_proc("/usr/bin/vt-curl", &["100000"], Some(1001)) },
         Who { label: "bob", uid: 1002, is_root: false, user: "bob", pid: w.spawn_proc("/usr/bin/vt-curl", &["100001"], Some(1002)) },
         Who { label: "uid0-not-admin", uid: 0, is_root: false, user: "root", pid: w.spawn_proc("/usr/bin/vt-odd", &["100000"], None) },
+        // a non-elevated caller whose executable path and command line are not valid UTF-8 (any user can arrange that)
+        Who {
+            label: "alice-non-utf8-path",
+            uid: 1001,
+            is_root: false,
+            user: "alice",
+            pid: {
+                use std::os::unix::ffi::OsStrExt;
+                w.spawn_proc_os(std::ffi::OsStr::from_bytes(b"/usr/bin/vt-\xff\xfe-dir/vt-tool"), &[std::ffi::OsStr::from_bytes(b"100000")], Some(1001))
+            },
+        },
     ];
     let pols = policies(thorough);
     let urls: Vec<&'static str> = if thorough {
@@ -206,6 +217,12 @@ fn main() {
             }
         }
         let expect_relay = reasons.is_empty();
+        // a caller whose identity cannot be rendered (non-UTF-8 path) may be refused as unattributed (421) even where the
+        // rules would let it through: refusing more is not a mediation failure; relaying what must be refused is
+        let unrenderable = who.label == "alice-non-utf8-path";
+        if unrenderable && !expect_relay {
+            reasons.insert(421);
+        }
         let case_json = json!({"dest": c.dest, "who": who.label, "policy": pol.label, "url": c.url, "method": c.method});
         if ci < 3 || (!expect_relay && res.samples.len() < 5 && ci % 97 == 0) {
             res.sample(json!({"case": case_json, "expected": if expect_relay { json!("relay") } else { json!(reasons) }, "status": format!("{:?}", obs.status), "upstream_bytes": obs.bytes}));
@@ -216,7 +233,9 @@ fn main() {
             Err(e) => format!("err:{}", e.split(':').next().unwrap_or("")),
         };
         *status_hist.entry(st.clone()).or_insert(0) += 1;
-        if expect_relay {
+        if expect_relay && unrenderable && obs.status == Ok(421) && obs.bytes.iter().sum::<usize>() == 0 {
+            refused_n += 1;
+        } else if expect_relay {
             relayed_n += 1;
             let d = c.dest.unwrap();
             let hi = host_index(d).unwrap();
@@ -443,7 +462,7 @@ fn main() {
     res.cov(
         "rule",
         format!(
-            "full product of {} destinations (incl. direct/no record, self, other) x {} callers x {} rule sets (endpoint under test gets the set, the other endpoints a contrasting one) x {} URLs (incl. the two signature-exempt upload URLs) x 3 methods, one fresh TCP connection with a chosen source port and an injected kernel audit record each; plus every ordered pair of rule sets (A,B) applied A,B,A to one kept-alive attributed connection (policy in force at request time must decide); plus every ordered pair of records over uid (0,1001) x two pids x is_root (0,1) on two consecutive connections per endpoint (each connection is judged by its own record); plus a direct connection from the source port of 1 or 2 earlier attributed and served connections, 0 and 30 ms after them, per endpoint (must get 421, nothing upstream); non-trivial = the reference says the request must be refused (distinct (dest, caller, rule set, url) counted)",
+            "full product of {} destinations (incl. direct/no record, self, other) x {} callers (incl. one whose executable path and command line are not valid UTF-8) x {} rule sets (endpoint under test gets the set, the other endpoints a contrasting one) x {} URLs (incl. the two signature-exempt upload URLs) x 3 methods, one fresh TCP connection with a chosen source port and an injected kernel audit record each; plus every ordered pair of rule sets (A,B) applied A,B,A to one kept-alive attributed connection (policy in force at request time must decide); plus every ordered pair of records over uid (0,1001) x two pids x is_root (0,1) on two consecutive connections per endpoint (each connection is judged by its own record); plus a direct connection from the source port of 1 or 2 earlier attributed and served connections, 0 and 30 ms after them, per endpoint (must get 421, nothing upstream); non-trivial = the reference says the request must be refused (distinct (dest, caller, rule set, url) counted)",
             dests.len(), whos.len(), pols.len(), urls.len()
         ),
     );
